@@ -43,6 +43,19 @@ CLAIMED['C05'] = dict(
          'from parameter callbacks. With several tasks the final entry must match an operation that may have been last.',
     design='6/C05')
 
+CLAIMED['C07'] = dict(
+    level='exploration',
+    text='Seeded search over grammar-generated and byte-mutated request streams, explicit cut positions plus network '
+         'segmentation/latency and receive time-outs inside lines, with a second (activated/logging) connection and '
+         'poll threads writing concurrently; real TCPRequestHandler + Dispatcher. Checked: one reply line per request '
+         'line in order, reply action/error_<action> with known error class, specifier echo, UTF-8 + strict JSON on '
+         'every line, whole lines under concurrent senders, handler alive, no leak to the other connection, answers '
+         'to unmutated lines equal those of a reference node, codec inverse on every triple seen.',
+    note='Trusted: simulation kernel, simulated TCP, the wire parser. Not exhaustive over segmentations (sampled '
+         'cut positions); requests whose action is update/log/_ are skipped (their error reply is '
+         'indistinguishable from an asynchronous message).',
+    design='6/C07')
+
 NOT_APPLICABLE = {
     'C01': 'pure function of (datatype, candidate, previous) - no schedule, clock, I/O or fault dimension for a simulator to decide',
     'C02': 'pure round-trip law over (datatype, value) - no schedule, clock, I/O or fault dimension',
